@@ -184,6 +184,27 @@ def one_case(ctx, rng, sb, nfaults):
                         pass
                 if problem:
                     break
+    if not problem and rc != 0 and published and got is not None:
+        # "... the run either still publishes a backup holding all other paths or ... publishes nothing": whatever is unfaulted, representable and
+        # reached through unfaulted, prepared items must be in a backup that was published, also when the exit status is non-zero
+        for i, it in enumerate(items):
+            if it["tree"] is None or problem:
+                continue
+            for p, n in walkrun.nodes_of(it["tree"]):
+                if n["kind"] == "special" or n.get("fault", "none") != "none" or "rawname" in n:
+                    continue
+                node, reach = it["tree"], True
+                real = case.roots[i].encode()
+                for x in p:
+                    if node.get("fault", "none") != "none" or "rawname" in node:
+                        reach = False
+                    node = dict(node["children"])[x]
+                    real = os.path.join(real, node.get("rawname", walkrun.name_of(x).encode()))
+                if not reach:
+                    continue
+                if real not in got:
+                    problem = "a backup was published (exit %d) but it lacks %r, with which nothing was wrong" % (rc, real)
+                    break
     if not problem and rc != 0 and not errs:
         problem = "non-zero exit without any error-level report"
     if problem:
